@@ -152,6 +152,64 @@ def run(chk, tier):
             chk.bad("R11.5", path, "takes a mutable borrow: %s" % args, b.file)
         else:
             chk.ok("R11.5", path, args)
+    # ---- R11.6 stored state is updated consistently: no field of a root lags behind another
+    chk.rule("R11.6", "in every mutator (&mut self method) of CelContext / BindContext, a field that is updated at all is updated on every path on which another field of the same "
+                      "object is updated: no derived table can keep a stale entry after a name is replaced")
+    import mirq
+    n_mut = 0
+    for root in ("rscel::context::CelContext", "rscel::context::bind_context::BindContext"):
+        adt = F.adts.get(root) or F.adts.get(root.replace("::<'a>", ""))
+        cands = [a for k_, a in F.adts.items() if k_.split("<")[0] == root]
+        adt = adt or (cands[0] if cands else None)
+        if adt is None:
+            chk.bad("R11.6", "anchor|" + root, "type %s not found" % root, "")
+            continue
+        fnames = [f["name"] for f in adt["variants"][0]["fields"]]
+        short_root = root.split("::")[-1]
+        for b in F.bodies.values():
+            if b.pkg != "rscel" or not re.search(r"::%s(::<[^>]*>)?::\w+$" % short_root, b.path):
+                continue
+            if b.d.get("arg_count", 0) < 1 or not re.match(r"^&('\w+ )?mut [\w:]*%s\b" % short_root, b.local_ty(1) or ""):
+                continue
+            q = mirq.BodyQ(b)
+            writes = {}
+            for blk, t in b.calls():
+                for a, ty in zip(t.get("args", []), t.get("atys", [])):
+                    if not ty.startswith("&mut"):
+                        continue
+                    o = q.origin(a)
+                    # &mut (*self).field  handed to a callee = an update of that field
+                    pl = None
+                    if o and o[0] == "param" and o[1] == 1 and len(o) > 2:
+                        pl = o[2]
+                    if pl:
+                        fi = [x.get("f") for x in pl if isinstance(x, dict) and "f" in x]
+                        if fi:
+                            writes.setdefault(fi[0], set()).add(blk)
+            for i, st_ in b.stmts():
+                pl = st_.get("place", {})
+                if st_.get("k") == "assign" and pl.get("l") == 1 and pl.get("p") and pl["p"][0] == "deref":
+                    fi = [x.get("f") for x in pl["p"] if isinstance(x, dict) and "f" in x]
+                    if fi:
+                        writes.setdefault(fi[0], set()).add(i)
+            if not writes:
+                continue
+            n_mut += 1
+            rets = [i for i, t in b.terms("return")]
+
+            def always(blocks):
+                seen = q.reach(0, blocked=blocks)
+                return not any(r in seen for r in rets)
+            total = {f: always(bl) for f, bl in writes.items()}
+            key = lib.short(b.path)
+            if len(writes) >= 2 and any(total.values()) and not all(total.values()):
+                lag = sorted(fnames[f] if f < len(fnames) else str(f) for f, v in total.items() if not v)
+                lead = sorted(fnames[f] if f < len(fnames) else str(f) for f, v in total.items() if v)
+                chk.bad("R11.6", key, "%s always updates %s but updates %s only on some paths: after a name is replaced the other table can keep the old entry, "
+                                      "so a later result depends on what was stored before" % (key, lead, lag), b.file)
+            else:
+                chk.ok("R11.6", key, {"fields updated": sorted(fnames[f] if f < len(fnames) else str(f) for f in writes)})
+    chk.floor("R11.6", "mutators of the stored state", n_mut, 4)
     return chk.finish(
         "Effect rules over all rscel bodies (statics, thread-locals, ambient-input callees, hash-container iteration) and an interior-mutability walk "
         "over the types reachable from CelContext / BindContext / Program. Decides: no hidden state, enumerated ambient inputs, no hash order in "
